@@ -46,6 +46,12 @@ def aErase (k : κ) : List (κ × ν) → List (κ × ν)
 
 def aKeys (l : List (κ × ν)) : List κ := l.map Prod.fst
 
+/-- insert when there is a value, else leave the map alone -/
+def aInsertOpt (k : κ) (o : Option ν) (m : List (κ × ν)) : List (κ × ν) :=
+  match o with
+  | some w => aInsert k w m
+  | none => m
+
 /-- `map.entry(k).or_default().push(x)` -/
 def aPush {β : Type} (k : κ) (x : β) : List (κ × List β) → List (κ × List β)
   | [] => [(k, [x])]
@@ -159,10 +165,13 @@ def ESlab.snapshot (ttOk : List Nat → Bool) (s : ESlab) : Nat × List (Nat × 
 
 /-- `EmbeddingSlab::restore`: a new slab of the saved dimension, `set` of every `to_dense`; an entry
     whose `set` fails is skipped (a warning is logged) -/
+def ESlab.setOrSkip (s : ESlab) (id : Nat) (v : List Nat) : ESlab :=
+  match s.set id v with
+  | some s' => s'
+  | none => s
+
 def ESlab.restore (ttRecon : List Nat → List Nat) (snap : Nat × List (Nat × CEmb)) : ESlab :=
-  snap.2.foldl (fun s e => match s.set e.1 (toDense ttRecon e.2) with
-    | some s' => s'
-    | none => s) (ESlab.new snap.1)
+  snap.2.foldl (fun s e => s.setOrSkip e.1 (toDense ttRecon e.2)) (ESlab.new snap.1)
 
 /-! ## cache ring (cache_ring.rs): a fixed number of slots -/
 
@@ -581,15 +590,63 @@ def Router.restore (ttRecon : List Nat → List Nat) (fx : GFix) (s : RouterSnap
 /-- the header's `entry_count`: `router.len() + router.index.len()` -/
 def Router.entryCount (r : Router) : Nat := r.len + r.index.live
 
+/-! ## operation sequences -/
+
+inductive GOp where
+  | add (src dst : Nat) (ty : Name) (directed : Bool)
+  | del (id : Nat)
+  | merge
+  | setData (id : Nat) (d : TData)
+
+def GraphT.apply (g : GraphT) : GOp → GraphT
+  | .add s d ty dir => (g.addEdge s d ty dir).1
+  | .del id => (g.deleteEdge id).1
+  | .merge => g.merge
+  | .setData id d => g.setEdgeData id d
+
+inductive BOp where
+  | append (hash : Nat) (data : Bytes)
+  | mark (hash : Nat)
+
+def BlobLog.apply (b : BlobLog) : BOp → BlobLog
+  | .append h d => b.append h d
+  | .mark h => b.markGarbage h
+
+/-- `evict_cache`: the entries with the lowest scores go; which ones is an input -/
+def Cache.evict (c : Cache) (keys : List Name) : Cache := keys.foldl (fun c k => c.delete k) c
+
+inductive ROp where
+  | put (key : Name) (val : TData) (victim : Nat)
+  | delete (key : Name)
+  | get (key : Name)
+  | evict (keys : List Name)
+  | clear
+  | graph (op : GOp)
+  | blob (op : BOp)
+
+def Router.apply (r : Router) : ROp → Router
+  | .put k v victim => r.put k v victim
+  | .delete k => (r.delete k).1
+  | .get k => r.touch k
+  | .evict ks => { r with cache := r.cache.evict ks }
+  | .clear => r.clear
+  | .graph op => { r with graph := r.graph.apply op }
+  | .blob op => { r with blobs := r.blobs.apply op }
+
+def Router.run (r : Router) (ops : List ROp) : Router := ops.foldl Router.apply r
+
 /-! ## store-level loops (lib.rs, snapshot.rs) -/
 
 /-- `TensorStore::restore_from_bytes` after `SlabRouter::from_bytes` gave `new`: clear the store's
     own router, then `put` what `get` returns for every key of `new.scan("")` (`order`: the scan is a
     `HashSet`, any order). Only key-addressed content travels. -/
+def Router.putOpt (t : Router) (key : Name) (o : Option TData) : Router :=
+  match o with
+  | some v => t.put key v 0
+  | none => t
+
 def restoreFromBytes (target new : Router) (order : List Name) : Router :=
-  order.foldl (fun t key => match new.peek key with
-    | some v => t.put key v 0
-    | none => t) target.clear
+  order.foldl (fun t key => t.putOpt key (new.peek key)) target.clear
 
 /-- `snapshot::load_v2`: a fresh router and `put` of every entry of the decoded map -/
 def loadV2Entries (cfg : RouterCfg) (entries : List (Name × TData)) : Router :=
